@@ -5,6 +5,7 @@ import vlib
 from vlib import run_bin, workdir, read_ndjson, log
 
 TWO63 = 9223372036854775808
+VACUITY = None
 
 
 def big_integral_reals(j):
@@ -36,8 +37,11 @@ def record_and_judge(tag, tier, n_quick=150, n_thorough=3000, max_objects=8):
     verdicts, states, trans = vlib.validate_trace("Trace_Lifecycle.tla", "Trace_Lifecycle.cfg", recs, tag,
                                                   boundaries=bounds, chunks=1 if tier == "quick" else 12)
     expected = sum(1 for r in recs if r["ev"] in ("Save", "Load", "File"))
-    if tier == "quick" and not any(r["ev"] == "Save" and r.get("cycle") == 3 for r in recs):
-        raise vlib.ToolError("vacuous: no plain save of a document loaded from a two-revision file was recorded")
+    global VACUITY
+    VACUITY = None
+    if not any(r["ev"] == "Save" and r.get("cycle") == 3 for r in recs):
+        # reported by the caller only if the run found no violation (a broken loader prevents these saves)
+        VACUITY = "vacuous: no plain save of a document loaded from a two-revision file was recorded"
     if len(verdicts) != expected:
         raise vlib.ToolError("trace validator judged %d of %d calls" % (len(verdicts), expected))
     return recs, verdicts, states, trans
